@@ -11,10 +11,11 @@ TRUSTED = [
     'trace validation: the real fifo_stream / Parmapper run under harness/detsched.py with virtual primitives injected into mpservice module globals; every logged run is replayed event by event in the model',
     'virtual primitives follow CPython semantics (harness/vprims.py; Future = stdlib source re-executed over them)',
     __import__('harness.scen_lane', fromlist=['LANE_TRUSTED']).LANE_TRUSTED,
+    __import__('harness.scen_parreal', fromlist=['ORDER_TRUSTED']).ORDER_TRUSTED,
 ]
 ASSUME = [
     'code between two logged shared-object operations touches only thread-local state',
-    'executor="process": same mpservice code path with a stdlib ProcessPoolExecutor (trusted, exercised only by the repository tests)',
+    'executor="process" and async worker functions are not scheduled: their interleavings are whatever the OS / event loop produces in the real-run part',
     'completeness and call-once are theorems (C01_fifo_complete, C01_calls_once) and are also checked by the oracle on every explored run',
 ]
 
@@ -76,7 +77,8 @@ def parts():
     from harness import scen_lane
     return [core.Part('fifo', 'harness.scen_stream', 'fifo', 450, 8000, 'DriverFifo', ss.coq_fifo_case,
                       oracle, nontrivial),
-            scen_lane.part(250, 5000)]
+            scen_lane.part(250, 5000),
+            __import__('harness.scen_parreal', fromlist=['order_part']).order_part(30, 500)]
 
 
 def check(tier, seed, replay=None):
@@ -87,5 +89,7 @@ def check(tier, seed, replay=None):
              'greedy with random flips) from one PRNG seeded by VERIF_SEED; each run executes the real code on real threads under '
              'the deterministic scheduler and is replayed event by event in the Coq model; the oracle recomputes the expected '
              'outputs from the inputs; non-trivial = at least two outputs and (calls completed out of submission order or an '
-             'exception output was delivered); distinct = distinct (configuration, event trace)',
+             'exception output was delivered); distinct = distinct (configuration, event trace). Real-run part: Stream.parmap with '
+             'executor=thread/process or an async worker function, concurrency 1-4, 0-30 inputs, per-element durations that scramble '
+             'the completion order, the same failure / flag / stop options; result compared with the model under a fair schedule',
         replay=replay)
